@@ -176,7 +176,7 @@ def check(ctx, rep, cfg):
         n += 1
         rep.ob("FWD", f.path + tag, ok, ("private helper forwards the whole input once to the %s update" % kind) if ok else "; ".join(problems), loc=f.loc())
         rep.sample({"wrapper": f.path, "inner": kind})
-    rep.floor("update wrappers" + tag, n, 14)
+    rep.floor("public update wrappers" + tag, sum(len(get(prog, a)) for a in PUBLIC_UPDATES), 10)
     # ---- one-shot ----------------------------------------------------------------------------
     m = 0
     for osa, upa in ONE_SHOTS:
@@ -187,11 +187,25 @@ def check(ctx, rep, cfg):
             continue
         m += 1
         inner_inc = inner_update_fn(prog, ufs[0])
-        ok, why = one_shot(prog, ofs[0], inner_inc)
+        ok, why = one_shot(prog, view_of(prog, ofs[0]), inner_inc)
+        if not ok:
+            ok, why = one_shot(prog, ofs[0], inner_inc)
         rep.ob("ONE-SHOT", name + tag, ok, why, loc=ofs[0].loc())
     rep.floor("one-shot functions" + tag, m, 9)
     hmac(rep, prog, tag)
     buffer_invariants(rep, prog, tag)
+
+
+PRIMITIVE_MODULES = ("blake2b::", "poly1305::", "sha512::", "<blake2b::", "<poly1305::", "<sha512::")
+
+
+def view_of(prog, f):
+    """f with its private wrappers folded in; the primitives' own init/update/finalize stay calls"""
+    from ..inline import inline
+    def api_of_primitive(g):
+        # a primitive's crate-facing function: lives in a primitive module and is called from another file
+        return g.path.startswith(PRIMITIVE_MODULES) and any(h.file != g.file for h in prog.callers(g))
+    return inline(prog, f, keep=(api_of_primitive,))
 
 
 def inner_update_fn(prog, f, depth=0, inp=None):
@@ -248,7 +262,7 @@ def one_shot(prog, f, inner_inc, depth=0):
             continue     # a delegate must receive every parameter (in particular the message)
         for t in prog.callee_fns(c):
             if depth < 4 and t.kind != "closure" and not t.path.startswith(("error::", "types::", "<")):
-                ok, why = one_shot(prog, t, inner_inc, depth + 1)
+                ok, why = one_shot(prog, view_of(prog, t), inner_inc, depth + 1)
                 if ok:
                     return True, "delegates to %s: %s" % (t.path.split("::")[-1], why)
     return False, "; ".join(why_all) or "no init → update(whole message) → final sequence found"
@@ -281,13 +295,18 @@ def _one_shot_at(prog, f, c, inner, ai, p, inner_inc):
 def hmac(rep, prog, tag):
     # discovered from the public API: the function reachable from crypto_auth_final / crypto_auth_init that
     # drives two SHA-512 contexts
+    from ..inline import inline
+
     def find_under(pub, pred):
+        # the lowest function below the public entry point whose view (private helpers folded in) matches
         roots = prog.by_path.get(pub, [])
+        hits = {}
         for k in prog.reach_fns(roots):
-            g = prog.by_key[k]
-            if pred(g):
-                return [g]
-        return []
+            v = inline(prog, prog.by_key[k])
+            if pred(v):
+                hits[k] = v
+        low = [v for k, v in hits.items() if not any(h.key in hits and h.key != k for h in prog.callees(prog.by_key[k]))]
+        return low[:1]
     sha_calls = lambda g, nm: [c for c in g.calls() if c.is_local and c.rpath == "sha512::Sha512::" + nm]
     fin = find_under("classic::crypto_auth::crypto_auth_final", lambda g: len(sha_calls(g, "finalize_into_bytes")) + len(sha_calls(g, "finalize")) >= 2)
     ini = find_under("classic::crypto_auth::crypto_auth_init", lambda g: len(sha_calls(g, "update")) >= 2 and len(sha_calls(g, "new")) >= 2)
@@ -355,11 +374,12 @@ def hmac(rep, prog, tag):
             root = cm.view_info(g, list(operand_locals(c.args[1]))[0])[0]
             # the pad value in force at this update: the last whole-buffer fill dominating it, else the
             # buffer's initial repeat value
-            fills = [x for x in g.calls() if x.path == "core::slice::<impl [T]>::fill" and x.bb in g.dom.get(c.bb, ()) and
-                     cm.view_info(g, list(operand_locals(x.args[0]))[0])[0] == root]
+            from ..engines import views_of
+            pv = views_of(g, [root])
+            fills = [x for x in cm.fill_events(g, pv) if x[0] in g.dom.get(c.bb, ())]
             if fills:
-                last = [x for x in fills if not any(x.bb in g.dom.get(y.bb, ()) and x is not y for y in fills)]
-                consts_[role] = evaluate(call_arg_exprs(last[0])[1], {})
+                last = [x for x in fills if not any(x[0] in g.dom.get(y[0], ()) and x is not y and x[0] != y[0] for y in fills)]
+                consts_[role] = last[0][3]
             else:
                 e = expr_of_operand(g, {"k": "copy", "l": root, "p": []})
                 consts_[role] = evaluate(e.a, {}) if e.k == "repeat" else None
